@@ -96,6 +96,10 @@ def evaluate_on_grid(
             + 1,
             nz,
         )
+        if cell_positions_in_original_basis_z is None:
+            # 2D data: depth is not a coordinate of the cells
+            iz1 = 0
+            iz2 = nz
 
         for k in range(iz1, iz2):
             for j in range(iy1, iy2):
